@@ -4,6 +4,7 @@ import Cutplace.Spec.Fields
 import Cutplace.Proofs.LengthRange
 import Cutplace.Proofs.DateTimeLemmas
 import Cutplace.Proofs.DateTimeComplete
+import Cutplace.Proofs.Layout
 /-
 C02  Each field type accepts exactly the values its rule describes.
 
@@ -325,5 +326,31 @@ example :
     let c : Civil := ⟨2024, 2, 29, 23, 59, 0⟩
     c.InRange ∧ NoSpace fmt ∧ c.d ≤ daysInMonth c.y c.mo ∧ renderFmt fmt c = "2024-02-29T23:59".toList := by
   refine ⟨⟨by decide, by decide, by decide, by decide, by decide, by decide⟩, by unfold NoSpace; decide, by decide, by decide +kernel⟩
+
+/-- **The layout of the rule is translated into the directives it names.**  For every layout built from the placeholders
+`DD MM YYYY YY hh mm ss` and literal characters (anything but the letters of the placeholders and white space, `%` included), in
+any order and with placeholders side by side - only `YY` must not be directly followed by another year placeholder, because
+`YYYY` is the four-digit year - the replacement pass of `DateTimeFieldFormat.__init__` and strptime's reading of the resulting
+format give exactly the directives of the layout, in order.  (Before f42b7f8 the replacements were made one after the other
+and `MMmm` became `%%Mm`: found by the generated layouts of this check, repaired, theorem restated without that exclusion.) -/
+theorem C02_layout_translation (l : List LTok) (h : SafeLayout l) :
+    parseFormat (translateLayout (renderLayout l)) = some (some (l.map LTok.fmt)) :=
+  layout_translation l h
+
+/-- **From the rule in the CID to the accepted date**: a layout naming day, month and four-digit year accepts every real
+date (and time of day) written in it and returns it unchanged. -/
+theorem C02_datetime_layout (l : List LTok) (h : SafeLayout l) (c : Civil) (hr : c.InRange)
+    (hd : .day ∈ l) (hm : .month ∈ l) (hy : .year4 ∈ l) (hy2 : .year2 ∉ l) (hy1 : 1 ≤ c.y) (hdim : c.d ≤ daysInMonth c.y c.mo) :
+    ∃ fmt, parseFormat (translateLayout (renderLayout l)) = some (some fmt) ∧
+      strptime fmt (renderFmt fmt c) = some (c.y, c.mo, c.d, (if .hour ∈ fmt then c.h else 0),
+        (if .minute ∈ fmt then c.mi else 0), (if .second ∈ fmt then c.s else 0)) :=
+  layout_accepts l h c hr hd hm hy hy2 hy1 hdim
+
+/-- non-vacuity: `YYYYMMDDhhmm` (placeholders side by side) is a safe layout, written as that text -/
+example :
+    let l : List LTok := [.year4, .month, .day, .hour, .minute]
+    SafeLayout l ∧ renderLayout l = "YYYYMMDDhhmm".toList := by
+  refine ⟨?_, by decide⟩
+  simp [SafeLayout, LTok.isYear]
 
 end Cutplace.Props
